@@ -203,4 +203,67 @@ def bytesCompare : List Nat → List Nat → Nat
   | _ :: _, [] => 1
   | x :: xs, y :: ys => if x < y then 2 ^ 64 - 1 else if y < x then 1 else bytesCompare xs ys
 
+/-! ### additions for the legacy loader (trie/slimtrie_marshal.go), agT4 -/
+
+/-- `a / b`, `a % b` with a divisor that is not a constant: a zero divisor panics
+    (`MinInt / -1` wraps, as in Go) -/
+def divChkS (w a b : Nat) : Option Nat := if b = 0 then none else some (divS w a b)
+def modChkS (w a b : Nat) : Option Nat := if b = 0 then none else some (modS w a b)
+def divChkU (a b : Nat) : Option Nat := if b = 0 then none else some (divU a b)
+def modChkU (a b : Nat) : Option Nat := if b = 0 then none else some (modU a b)
+
+/-- `make([]T, n)`, `n` of a signed type of width `w`: a negative length panics; zero elements -/
+def makeS (w n : Nat) : Option (List Nat) := if n < 2 ^ (w - 1) then some (List.replicate n 0) else none
+/-- `make([]T, n)`, `n` of an unsigned type -/
+def makeU (n : Nat) : Option (List Nat) := some (List.replicate n 0)
+
+/-- `a[i] = v`, the index of a signed type of width `w` -/
+def setS {α : Type} (w : Nat) (a : List α) (i : Nat) (v : α) : Option (List α) :=
+  if i < 2 ^ (w - 1) ∧ i < a.length then some (a.set i v) else none
+/-- `a[i] = v`, the index of an unsigned type -/
+def setU {α : Type} (a : List α) (i : Nat) (v : α) : Option (List α) :=
+  if i < a.length then some (a.set i v) else none
+
+/-- `st.encoder.GetEncodedSize(nil)`: the field `encoder` (an interface value of package encode) is not
+    represented; the translated function receives the outcome of this call as a parameter:
+    `some p` = it returns the `int` with pattern `p`, `none` = it panics (nil encoder, or an encoder
+    whose `GetEncodedSize` reads its argument). -/
+def encodedSize (encSize : Option Nat) : Option Nat := encSize
+
+/-- the number of bits of `bitmap.Of(bitPositions, capa)`: `n = capa; if len > 0 { max := last + 1; if n < max { n = max } }` -/
+def bitmapOfBits (ps : List Nat) (capa : Nat) : Nat :=
+  match ps.getLast? with
+  | some l => if ltS 32 capa (add 32 l 1) then add 32 l 1 else capa
+  | none => capa
+
+/-- `bitmap.Of(bitPositions, capa) []uint64` (openacid/low bitmap/of.go), transcribed: the number of
+    bits is `capa` or `last position + 1`, `make` panics on a negative word count, every position
+    sets one bit (`words[i>>6] |= 1 << uint(i&63)`, an index out of range panics).  ASSUMED. -/
+def bitmapOf (ps : List Nat) (capa : Nat) : Option (List Nat) := do
+  let n := bitmapOfBits ps capa
+  let nWords := sar 32 (add 32 n 63) 6
+  let words ← makeS 32 nWords
+  ps.foldlM (fun ws i => do
+    let wordI := sar 32 i 6
+    let j := and i 63
+    let x ← idxS 32 ws wordI
+    setS 32 ws wordI (or x (shl 64 1 j))) words
+
+/-- `bitmap.IndexRank64(words) []int32` (bitmap/rank.go) without the trailing total: entry `i` is the
+    `int32` count of ones before word `i`.  ASSUMED. -/
+def indexRank64 (words : List Nat) : List Nat :=
+  let rec go : List Nat → Nat → List Nat
+    | [], _ => []
+    | w :: ws, n => n :: go ws (add 32 n (conv 64 true 32 (popcount64 w)))
+  go words 0
+
+/-- `newBM(indexes, capa, "r64")` of trie/bitmap.go: `&Bitmap{Words: bitmap.Of(indexes, capa)}` followed
+    by `indexit("r64")`, i.e. `RankIndex = bitmap.IndexRank64(Words)`; the result is (Words, RankIndex)
+    (`SelectIndex` stays nil).  newBM itself (variadic options, `range`, `switch`) is NOT translated:
+    the translator uses this specification only while the text of `newBM` / `indexit` in /repo is the
+    one it was written for (translate.go `newBMText`, `indexitText`). -/
+def newBMr64 (ps : List Nat) (capa : Nat) : Option (List Nat × List Nat) := do
+  let ws ← bitmapOf ps capa
+  pure (ws, indexRank64 ws)
+
 end Generated.Go
